@@ -1,7 +1,8 @@
 /-
   C05 model driver. One S-expression per line in, one out.
 
-    (dt "<text>" "<rendering>"|none)                      → ok     -- RFC 3339 table (Go's parser is the parameter P)
+    (dt "<text>" (some "<rendering>")|none)               → ok     -- rendering table (Go's parser); acceptance is Rfc3339.accepts
+    (dtshape "<text>")                                    → (shape <accepted by Go's UnmarshalText> <RFC 3339 proper>)
     (case field|directive <argdefs> <vardefs> <args> <raw>) → (res <outcome> <outcome before F-04d's repair (diagnostic only)> <coercion without the validation gate (diagnostic only)>)
     (lit <ty> <lit> <vars>)                               → (ok <goval>) | err      -- schema.CoerceLiteral
     (var <ty> <json>)                                     → (ok <goval>) | err      -- schema.CoerceVariableValue
@@ -16,20 +17,30 @@
     json   := null | (num h) | (str s) | (bool b) | (list json…) | (obj (k json)…)
     cv     := null | (int z) | (half h) | (str s) | (bool b) | (enum n) | (list cv…) | (obj (k cv)…)
     outcome:= invalid | reqerr | fielderr | (ok (name goval)…)
+
+  Every other line is handed to the generalised model's driver (ApiFu/C05/R/Driver.lean: rcase, rlit, rvar,
+  rspec — type environment with recursive input objects, hooks, custom scalars, Go kinds).
 -/
 import ApiFu.Common.Sexp
 import ApiFu.Common.Loop
 import ApiFu.C05.Model
 import ApiFu.C05.Spec
+import ApiFu.C05.R.Driver
+import ApiFu.C05.Rfc3339
 
 open ApiFu ApiFu.C05
 
 abbrev St := List (String × Option String)
 
+/-- The parameter `P`: *whether* a string is a timestamp is decided here (`Rfc3339.accepts`, the
+    decidable shape of what Go's `UnmarshalText` takes); *which* instant and zone it is comes from
+    Go's parser through the table. -/
 def parseOf (st : St) : Parse := fun s =>
-  match st.lookup s with
-  | some r => r
-  | none => none
+  if Rfc3339.accepts s.toList then
+    match st.lookup s with
+    | some r => r
+    | none => none
+  else none
 
 def scalarOf : String → Option Scalar
   | "Int" => some .int
@@ -165,6 +176,8 @@ def resSexp : Option GoVal → String
 
 def handle (st : St) (line : String) : St × String :=
   match Sexp.parse line with
+  | some (.list [.atom "dtshape", .atom t]) =>
+    (st, toString (Sexp.node "shape" [Sexp.ofBool (Rfc3339.accepts t.toList), Sexp.ofBool (Rfc3339.strict t.toList)]))
   | some (.list [.atom "dt", .atom t, .atom "none"]) => ((t, none) :: st, "ok")
   | some (.list [.atom "dt", .atom t, .list [.atom "some", .atom c]]) => ((t, some c) :: st, "ok")
   | some (.list [.atom "case", .atom site, ad, vd, ar, rw]) =>
@@ -196,6 +209,10 @@ def handle (st : St) (line : String) : St × String :=
     match tyOf t, goValOf v with
     | some t, some v => (st, toString (conforms t v))
     | _, _ => (st, "bad-op")
-  | _ => (st, "bad-op")
+  | some x =>
+    match ApiFu.C05.R.Driver.handle (parseOf st) x with
+    | some r => (st, r)
+    | none => (st, "bad-op")
+  | none => (st, "bad-op")
 
 def main : IO Unit := lineLoop handle []
